@@ -13,6 +13,14 @@ import (
 	"golang.org/x/tools/go/ssa"
 )
 
+type noModel struct{}
+
+type hashRec struct {
+	key string
+	in  []*Term
+	out *Term
+}
+
 type modelFn func(e *Engine, st *State, args []Value, call *ssa.Call, pos token.Pos) Value
 
 var models = map[string]modelFn{}
@@ -217,6 +225,51 @@ func init() {
 			modelsUsed["sync.Map as an ordinary map (prelude helper)"]++
 			return tailCall{FuncV{fn: h}, args}
 		}
+	}
+	// farm.Hash64 over bytes that are not all constants: an uninterpreted perfect hash. Equal inputs
+	// give equal results, different inputs different results (collisions are outside every claim);
+	// constant inputs are hashed by the real code.
+	models["github.com/dgryski/go-farm.Hash64"] = func(e *Engine, st *State, args []Value, call *ssa.Call, pos token.Pos) Value {
+		sl, ok := args[0].(SliceV)
+		if !ok || !sl.ln.k || sl.ln.c > 4096 {
+			return noModel{}
+		}
+		n := int(sl.ln.c)
+		bs := make([]*Term, n)
+		allConst := true
+		for k := 0; k < n; k++ {
+			bs[k] = term(e.load(st, Pointer{obj: sl.obj, off: Bin("bvadd", sl.off, BV(64, uint64(k)))}, types.Typ[types.Uint8], pos))
+			if !bs[k].k {
+				allConst = false
+			}
+		}
+		if allConst {
+			return noModel{}
+		}
+		modelsUsed["farm.Hash64 of symbolic bytes as an uninterpreted perfect hash"]++
+		key := ""
+		for _, b := range bs {
+			key += fmt.Sprintf("%d,", b.id)
+		}
+		for _, prev := range st.hashRecs {
+			if prev.key == key {
+				return prev.out
+			}
+		}
+		out := e.internalVar("farmhash", 64)
+		for _, prev := range st.hashRecs {
+			if len(prev.in) != n {
+				e.assume(st, Not(Eq(out, prev.out)))
+				continue
+			}
+			same := Bool(true)
+			for k := range bs {
+				same = And(same, Eq(bs[k], prev.in[k]))
+			}
+			e.assume(st, Eq(Eq(out, prev.out), same))
+		}
+		st.hashRecs = append(st.hashRecs[:len(st.hashRecs):len(st.hashRecs)], &hashRec{key: key, in: bs, out: out})
+		return out
 	}
 	models["(*sync.Mutex).TryLock"] = func(e *Engine, st *State, args []Value, call *ssa.Call, pos token.Pos) Value { return Bool(true) }
 	models["time.Now"] = func(e *Engine, st *State, args []Value, call *ssa.Call, pos token.Pos) Value {
@@ -931,6 +984,10 @@ func lookupModel(fn *ssa.Function) (modelFn, bool) {
 			return func(e *Engine, st *State, args []Value, call *ssa.Call, pos token.Pos) Value {
 				e.reach(st, strArg(args[0]))
 				return TupleV{}
+			}, true
+		case "vElapsedSec": // whole seconds elapsed on the virtual clock (natively: real time since the harness started)
+			return func(e *Engine, st *State, args []Value, call *ssa.Call, pos token.Pos) Value {
+				return Bin("bvudiv", st.now(), BV(64, 1000000000))
 			}, true
 		case "vObserve":
 			return func(e *Engine, st *State, args []Value, call *ssa.Call, pos token.Pos) Value {
